@@ -347,6 +347,123 @@ def _flatten_chains(fn: ast.FunctionDef) -> None:
         ast.fix_missing_locations(fn)
 
 
+def _normalise_namedtuples(trees: list[ast.Module]) -> None:
+    """A NamedTuple of the package is a tuple with names: `C(a=x, b=y)` -> `(x, y)`, `t.a` -> `t[0]` (for field names that
+    no other object of the package uses), `t = E; u = t[0]; v = t[1]` -> `(u, v) = E`, `for t in X: .. t[0] .. t[1] ..` ->
+    `for (t_a, t_b) in X`. Rules are written for plain tuples and see the same program either way."""
+    classes: dict[str, list[str]] = {}
+    defaults: dict[str, dict[str, ast.expr]] = {}
+    for tree in trees:
+        for c in ast.walk(tree):
+            if isinstance(c, ast.ClassDef) and any((isinstance(b, ast.Name) and b.id == "NamedTuple") or
+                                                   (isinstance(b, ast.Attribute) and b.attr == "NamedTuple") for b in c.bases):
+                fields = [s.target.id for s in c.body if isinstance(s, ast.AnnAssign) and isinstance(s.target, ast.Name)]
+                if fields and not any(isinstance(s, ast.FunctionDef) for s in c.body):
+                    classes[c.name] = fields
+                    defaults[c.name] = {s.target.id: s.value for s in c.body if isinstance(s, ast.AnnAssign)
+                                        and isinstance(s.target, ast.Name) and s.value is not None}
+    if not classes:
+        return
+    owner: dict[str, tuple[str, int]] = {}
+    clash: set[str] = set()
+    for cn, fs in classes.items():
+        for i, f_ in enumerate(fs):
+            if f_ in owner:
+                clash.add(f_)
+            owner[f_] = (cn, i)
+    # a field name that is also an attribute of something else stays untouched
+    for tree in trees:
+        for n in ast.walk(tree):
+            if isinstance(n, ast.Attribute) and isinstance(n.ctx, (ast.Store, ast.Del)) and n.attr in owner:
+                clash.add(n.attr)
+            if isinstance(n, ast.FunctionDef) and n.name in owner:
+                clash.add(n.name)
+    for f_ in clash:
+        owner.pop(f_, None)
+
+    class T(ast.NodeTransformer):
+        def visit_Call(self, n: ast.Call):
+            self.generic_visit(n)
+            nm = n.func.id if isinstance(n.func, ast.Name) else n.func.attr if isinstance(n.func, ast.Attribute) else None
+            if nm in classes and not any(isinstance(a, ast.Starred) for a in n.args) and all(k.arg for k in n.keywords):
+                fs = classes[nm]
+                vals: dict[str, ast.expr] = dict(zip(fs, n.args))
+                for k in n.keywords:
+                    vals[k.arg] = k.value
+                for f_ in fs:
+                    if f_ not in vals and f_ in defaults[nm]:
+                        vals[f_] = defaults[nm][f_]
+                if set(vals) == set(fs):
+                    return ast.copy_location(ast.Tuple([vals[f_] for f_ in fs], ast.Load()), n)
+            return n
+
+        def visit_Attribute(self, n: ast.Attribute):
+            self.generic_visit(n)
+            if isinstance(n.ctx, ast.Load) and n.attr in owner:
+                return ast.copy_location(ast.Subscript(n.value, ast.Constant(owner[n.attr][1]), ast.Load()), n)
+            return n
+
+    arities = set(len(v) for v in classes.values())
+
+    def fuse(body: list[ast.stmt]) -> None:
+        i = 0
+        while i < len(body):
+            st = body[i]
+            # t = E; a = t[0]; b = t[1]   ->   (a, b) = E
+            if isinstance(st, ast.Assign) and len(st.targets) == 1 and isinstance(st.targets[0], ast.Name):
+                t = st.targets[0].id
+                for ar in sorted(arities):
+                    nxt = body[i + 1:i + 1 + ar]
+                    if len(nxt) == ar and all(
+                            isinstance(x, ast.Assign) and len(x.targets) == 1 and isinstance(x.targets[0], ast.Name)
+                            and isinstance(x.value, ast.Subscript) and isinstance(x.value.value, ast.Name) and x.value.value.id == t
+                            and isinstance(x.value.slice, ast.Constant) and x.value.slice.value == j
+                            for j, x in enumerate(nxt)):
+                        new = ast.Assign([ast.Tuple([x.targets[0] for x in nxt], ast.Store())], st.value)
+                        ast.copy_location(new, st)
+                        ast.copy_location(new.targets[0], st)
+                        keep = []
+                        # `t` may still be read later: keep it as the tuple of the parts
+                        keep.append(ast.copy_location(ast.Assign([ast.Name(t, ast.Store())],
+                                                                 ast.Tuple([ast.Name(x.targets[0].id, ast.Load()) for x in nxt], ast.Load())), st))
+                        body[i:i + 1 + ar] = [new] + keep
+                        break
+            # for t in X: uses only t[k]   ->   for (t_0, .., t_n) in X
+            if isinstance(st, ast.For) and isinstance(st.target, ast.Name):
+                t = st.target.id
+                loads = [x for b_ in st.body + st.orelse for x in ast.walk(b_) if isinstance(x, ast.Name) and x.id == t]
+                subs = [x for b_ in st.body + st.orelse for x in ast.walk(b_) if isinstance(x, ast.Subscript) and isinstance(x.value, ast.Name)
+                        and x.value.id == t and isinstance(x.slice, ast.Constant) and isinstance(x.slice.value, int)
+                        and isinstance(x.ctx, ast.Load)]
+                if subs and len(loads) == len(subs) and all(isinstance(x.ctx, ast.Load) for x in loads):
+                    ar = max(x.slice.value for x in subs) + 1
+                    if ar in arities:
+                        fields = next(fs for fs in classes.values() if len(fs) == ar)
+                        names = [f"{t}_{f_}" for f_ in fields]
+
+                        class R(ast.NodeTransformer):
+                            def visit_Subscript(self, n):
+                                if isinstance(n.value, ast.Name) and n.value.id == t and isinstance(n.slice, ast.Constant) \
+                                        and isinstance(n.slice.value, int) and isinstance(n.ctx, ast.Load):
+                                    return ast.copy_location(ast.Name(names[n.slice.value], ast.Load()), n)
+                                return self.generic_visit(n)
+                        st.body = [R().visit(b_) for b_ in st.body]
+                        st.orelse = [R().visit(b_) for b_ in st.orelse]
+                        st.target = ast.copy_location(ast.Tuple([ast.Name(x, ast.Store()) for x in names], ast.Store()), st.target)
+            for fld in ("body", "orelse", "finalbody"):
+                b_ = getattr(st, fld, None)
+                if isinstance(b_, list) and b_ and isinstance(b_[0], ast.stmt):
+                    fuse(b_)
+            for h in getattr(st, "handlers", []) or []:
+                fuse(h.body)
+            i += 1
+
+    for tree in trees:
+        T().visit(tree)
+        fuse(tree.body)
+        ast.fix_missing_locations(tree)
+
+
 DYNAMIC_FEATURES = {"exec", "eval", "setattr", "__import__", "globals", "locals", "vars"}
 
 
@@ -358,6 +475,7 @@ class Repo:
         self.classes: dict[str, ast.ClassDef] = {}
         self.class_module: dict[str, Module] = {}
         self._callgraph = None
+        self.normalise = normalise
         self._load()
         self.unresolved_calls: list[str] = []
         self.resolved_calls = 0
@@ -403,6 +521,8 @@ class Repo:
                 _drop_local_annotations(tree)
                 m = Module(modname, f, src, tree)
                 self.modules[modname] = m
+        if self.normalise:
+            _normalise_namedtuples([m.tree for m in self.modules.values()])
         for m in self.modules.values():
             self._index_module(m)
 
